@@ -86,8 +86,47 @@ let run_decode infile outfile =
       | _ -> ()) (read_lines infile);
   close_out oc
 
+(* slow-reader scenario: <raw> = every byte the server wrote for the pipeline GET k; PING
+   (binary file), <value> = the stored value.  OK iff decode_stream raw = ([RBulk value;
+   RSimple "PONG"], []). *)
+let read_file path =
+  let ic = open_in_bin path in
+  let n = in_channel_length ic in
+  let s = really_input_string ic n in
+  close_in ic; s
+
+let summary (r : reply) : string =
+  match r with
+  | RBulk b -> Printf.sprintf "bulk(%d bytes)" (List.length b)
+  | RSimple b -> "simple:" ^ hx b
+  | RErr b -> "error:" ^ hx b
+  | RArr l -> Printf.sprintf "array(%d)" (List.length l)
+  | r -> print_reply r
+
+let run_slow rawfile valfile outfile =
+  let raw = read_file rawfile and v = read_file valfile in
+  let (rs, left) = decode_stream (bytes_of_string raw) in
+  let oc = open_out_bin outfile in
+  let tail s k = let n = String.length s in hex (String.sub s (max 0 (n - k)) (min k n)) in
+  (match rs, left with
+   | [RBulk b; RSimple p], [] when string_of_bytes p = "PONG" ->
+     let got = string_of_bytes b in
+     if got = v then Printf.fprintf oc "OK replies=2 bulk=%d\n" (String.length v)
+     else begin
+       let n = min (String.length got) (String.length v) in
+       let i = ref 0 in
+       while !i < n && got.[!i] = v.[!i] do incr i done;
+       Printf.fprintf oc "MISMATCH kind=payload model=bulk(%d bytes) impl=bulk(%d bytes) first-difference-at=%d\n"
+         (String.length v) (String.length got) !i
+     end
+   | _ ->
+     Printf.fprintf oc "MISMATCH kind=shape model=[bulk(%d bytes) +PONG] impl=[%s] undecodable-rest=%d bytes received=%d last-bytes=%s\n"
+       (String.length v) (String.concat " " (List.map summary rs)) (List.length left) (String.length raw) (tail raw 24));
+  close_out oc
+
 let () =
   match Array.to_list Sys.argv with
+  | [_; "slowread"; raw; v; out] -> run_slow raw v out
   | [_; "tcp"; infile; verdicts; trace] -> run_tcp infile verdicts trace
   | [_; "decode"; infile; outfile] -> run_decode infile outfile
   | _ -> prerr_endline "usage: c03run tcp <in> <verdicts> <trace> | c03run decode <in> <out>"; exit 2
